@@ -203,10 +203,6 @@ def rand_op(rng, special=False):
 def gen(rng, tier):
     n_cases = {"quick": 60, "thorough": 2500, "search": 1200}[tier]
     per = 20
-    # F17 probes: the content-type clause of the monitor is on for these (one op per case)
-    yield Case("s_mdwire", ["probe u - - none - none - 0"], "probe-f17")
-    yield Case("s_mdwire", ["probe b0 %s - none - none - 5" % show_md([(b"k", [b"v"])])], "probe-f17")
-    yield Case("s_mdwire", ["probe b1 - - ss.send %s ss.set %s 0" % (show_md([(b"h", [b"1"])]), show_md([(b"t", [b"2"])]))], "probe-f17")
     # systematic: every pool key alone, in the base MD and appended, on the unary path
     ops = []
     for k in VALID_KEYS + RESERVED_KEYS + INVALID_KEYS + UPPER_KEYS:
@@ -240,6 +236,10 @@ def gen(rng, tier):
         yield Case("s_mdwire", ops, "random-%d" % kcase)
     for o in singles[:{"quick": 40, "thorough": 400, "search": 200}[tier]]:
         yield Case("s_mdwire", [o], "special-keys")
+    # F17 probes (last, so that a new violation is reported on an ordinary rpc op first): the content-type clause of the monitor is on for these (one op per case)
+    yield Case("s_mdwire", ["probe u - - none - none - 0"], "probe-f17")
+    yield Case("s_mdwire", ["probe b0 %s - none - none - 5" % show_md([(b"k", [b"v"])])], "probe-f17")
+    yield Case("s_mdwire", ["probe b1 - - ss.send %s ss.set %s 0" % (show_md([(b"h", [b"1"])]), show_md([(b"t", [b"2"])]))], "probe-f17")
     yield from gen_fn(rng, tier)
 
 
